@@ -33,6 +33,29 @@ class Budget(BaseException):
     """Raised when the exploration budget of a job is exhausted."""
 
 
+class PathTimeout(BaseException):
+    """One path of the code under test ran longer than the per-path limit (a hang is a violation, not a pass)."""
+
+
+def _arm(seconds):
+    import signal
+    import threading
+    if not seconds or threading.current_thread() is not threading.main_thread():
+        return False
+
+    def handler(signum, frame):
+        raise PathTimeout()
+    signal.signal(signal.SIGALRM, handler)
+    signal.setitimer(signal.ITIMER_REAL, seconds)
+    return True
+
+
+def _disarm(armed):
+    if armed:
+        import signal
+        signal.setitimer(signal.ITIMER_REAL, 0)
+
+
 # ----------------------------------------------------------------------------- proxies
 class SymBool:
     __slots__ = ('g', 'e')
@@ -367,6 +390,7 @@ class Engine:
         self.path_log = None
         self.unknown_labels = []
         self.const_hash = False
+        self.path_timeout = 30.0      # seconds; a path of the real code normally takes milliseconds
         self.xcheck_left = 0
         self.xchecks = []
         self.cache = {}         # harness-owned, survives across the paths of this engine
@@ -679,6 +703,7 @@ class Engine:
             self.bcache = {}
             self.decl = {}
             self.model = None
+            armed = _arm(self.path_timeout)
             try:
                 fn(self)
                 self.stats.paths += 1
@@ -686,7 +711,16 @@ class Engine:
                 self.stats.infeasible += 1
             except PathEnd:
                 self.stats.paths += 1
+            except PathTimeout:
+                _disarm(armed)
+                self.stats.paths += 1
+                try:
+                    vals = self.assignment()
+                except BaseException:
+                    vals = {k: v[1] for k, v in self.decl.items() if v[0] == 'c'}
+                self.violations.append(Violation('path_does_not_terminate', {'limit_s': self.path_timeout}, vals))
             finally:
+                _disarm(armed)
                 self.solver.pop()
             tr = self.trace
             while tr:
@@ -707,6 +741,7 @@ class Engine:
 
     def run_concrete(self, fn):
         assert not self.symbolic
+        armed = _arm(self.path_timeout)
         try:
             fn(self)
             self.stats.paths += 1
@@ -714,9 +749,15 @@ class Engine:
         except PathEnd:
             self.stats.paths += 1
             return 'violation'
+        except PathTimeout:
+            self.stats.paths += 1
+            self.violations.insert(0, Violation('path_does_not_terminate', {'limit_s': self.path_timeout}, dict(self.used)))
+            return 'violation'
         except Infeasible:
             self.stats.infeasible += 1
             return 'infeasible'
+        finally:
+            _disarm(armed)
 
 
 def _info(info):
